@@ -7,11 +7,14 @@
    Executable definitions only; proofs are in Proofs/BuilderP.v.
 
    Object identity.  Class-level attribute fields (`PersonFields.id = PersonGraphQLField("id")`) are
-   SHARED objects: they live in the store (a heap indexed by nat) and are referred to by [Sh k].
-   Objects created by a classmethod call are fresh; in a builder *expression tree* such an object has
-   exactly one owner (its parent, or the shared object whose `on(...)` received it), so it is stored
-   inline in its owner ([N ...]); an in-place mutation of it is the owner getting the updated copy.
-   Defects of the code are reproduced, not repaired. *)
+   templates: since fix 5c467bf GraphQLField.__get__ hands out a fresh copy on every access through
+   the class, so no builder operation can reach (or mutate) a class-level object.  Every object of a
+   builder *expression tree* therefore has exactly one owner and is stored inline in it ([N ...]);
+   an in-place mutation of it is the owner getting the updated copy.  The model has no heap and no
+   state between operations: history freedom is by construction here and is established for the real
+   code by the tie (operations after histories vs. in a fresh process; the former alias()/on()
+   witnesses are replayed each run).  One Python object used twice (through a variable) is not a
+   tree and is outside the expression language. *)
 From Coq Require Import List String Ascii ZArith Bool Arith DecimalString Decimal.
 From AC Require Import Base.Strs Base.Sexp Base.Json Model.Names.
 Import ListNotations.
@@ -171,43 +174,13 @@ Record var := { v_name : string; v_type : string; v_value : json }.      (* _var
 Record fvar := { fv_key : string; fv_var : var }.                         (* formatted_variables *)
 Record ndata := { d_name : string; d_kind : okind; d_vars : list var; d_fmt : list fvar;
                   d_alias : option string }.
-Inductive node :=
-| N (d : ndata) (subs : list node) (frags : list (string * list node))
-| Sh (k : nat).                     (* reference to shared class-level object k *)
-Definition store := list node.
+Inductive node := N (d : ndata) (subs : list node) (frags : list (string * list node)).
 
 Definition can_fields (k : okind) : bool := match k with OFields | OIface => true | _ => false end.
 Definition can_on (k : okind) : bool := match k with OIface | OUnion => true | _ => false end.
 
-(* all class attributes, in class-table order; index in this list = address in the store *)
-Definition attrs (ct : list classmeta) : list (string * fieldmeta) :=
-  flat_map (fun cm => map (fun fm => (cm_name cm, fm))
-                          (filter (fun fm => negb (fm_method fm)) (cm_fields cm))) ct.
-Fixpoint index_of {X} (p : X -> bool) (l : list X) : option nat :=
-  match l with
-  | [] => None
-  | x :: r => if p x then Some 0 else option_map S (index_of p r)
-  end.
-Definition attr_index (ct : list classmeta) (cls py : string) : option nat :=
-  index_of (fun p => streq (fst p) cls && streq (fm_py (snd p)) py) (attrs ct).
-(* what `cls.f` denotes when it is a class attribute: the address of the shared object and the
-   field it was generated from *)
-Definition resolve_attr (ct : list classmeta) (cls py : string) : option (nat * fieldmeta) :=
-  match attr_index ct cls py with
-  | Some k => match nth_error (attrs ct) k with Some p => Some (k, snd p) | None => None end
-  | None => None end.
 Definition fresh_data (name : string) (k : okind) (vars : list var) : ndata :=
   {| d_name := name; d_kind := k; d_vars := vars; d_fmt := []; d_alias := None |}.
-(* the store right after importing the generated modules *)
-Definition store0 (ct : list classmeta) : store :=
-  map (fun p => N (fresh_data (fm_emit (snd p)) (fm_okind (snd p)) []) [] []) (attrs ct).
-
-Fixpoint set_nth {X} (k : nat) (x : X) (l : list X) : list X :=
-  match l, k with
-  | [], _ => []
-  | _ :: r, 0 => x :: r
-  | y :: r, S k' => y :: set_nth k' x r
-  end.
 
 (* ---- builder expressions ---- *)
 Inductive bexpr :=
@@ -313,74 +286,48 @@ Definition set_fmt (d : ndata) (f : list fvar) : ndata :=
 Section Eval.
 Variable ct : list classmeta.
 
-Fixpoint eval (e : bexpr) (st : store) {struct e} : option (store * node) :=
-  let evals := fix go (l : list bexpr) (st : store) {struct l} : option (store * list node) :=
+Fixpoint eval (e : bexpr) {struct e} : option node :=
+  let evals := fix go (l : list bexpr) {struct l} : option (list node) :=
     match l with
-    | [] => Some (st, [])
-    | x :: r => match eval x st with
-                | Some (st1, n) => match go r st1 with
-                                   | Some (st2, ns) => Some (st2, n :: ns)
-                                   | None => None end
-                | None => None end
+    | [] => Some []
+    | x :: r => match eval x, go r with Some n, Some ns => Some (n :: ns) | _, _ => None end
     end in
   match e with
   | Attr cls f =>
-      match resolve_attr ct cls f with Some (k, _) => Some (st, Sh k) | None => None end
+      (* class attribute access: __get__ returns a copy of the template created at import time *)
+      match find_fm ct cls f with
+      | Some fm => if fm_method fm then None      (* a bound method, not a field object *)
+                   else Some (N (fresh_data (fm_emit fm) (fm_okind fm) []) [] [])
+      | None => None end
   | Call cls f args =>
       match find_fm ct cls f with
       | Some fm =>
           if fm_method fm && args_known (fm_args fm) args then
             match call_vars (fm_args fm) args with
-            | Some vs => Some (st, N (fresh_data (fm_emit fm) (fm_okind fm) vs) [] [])
+            | Some vs => Some (N (fresh_data (fm_emit fm) (fm_okind fm) vs) [] [])
             | None => None end
           else None
       | None => None end
   | Fields e0 es =>
-      match eval e0 st with
-      | Some (st1, N d subs frs) =>
-          if can_fields (d_kind d) then
-            match evals es st1 with
-            | Some (st2, ns) => Some (st2, N d (subs ++ ns)%list frs)
-            | None => None end
-          else None
-      | _ => None            (* shared attribute classes have no `fields` method *)
-      end
+      match eval e0, evals es with
+      | Some (N d subs frs), Some ns =>
+          if can_fields (d_kind d) then Some (N d (subs ++ ns)%list frs) else None
+      | _, _ => None end
   | Alias e0 a =>
-      match eval e0 st with
-      | Some (st1, N d subs frs) => Some (st1, N (set_alias d a) subs frs)
-      | Some (st1, Sh k) =>
-          match nth_error st1 k with
-          | Some (N d subs frs) => Some (set_nth k (N (set_alias d a) subs frs) st1, Sh k)
-          | _ => None end
+      match eval e0 with
+      | Some (N d subs frs) => Some (N (set_alias d a) subs frs)
       | None => None end
   | On e0 t es =>
-      match eval e0 st with
-      | Some (st1, N d subs frs) =>
-          if can_on (d_kind d) then
-            match evals es st1 with
-            | Some (st2, ns) => Some (st2, N d subs (dset frs t ns))
-            | None => None end
-          else None
-      | Some (st1, Sh k) =>
-          match evals es st1 with
-          | Some (st2, ns) =>
-              match nth_error st2 k with
-              | Some (N d subs frs) =>
-                  if can_on (d_kind d) then Some (set_nth k (N d subs (dset frs t ns)) st2, Sh k)
-                  else None
-              | _ => None end
-          | None => None end
-      | None => None end
+      match eval e0, evals es with
+      | Some (N d subs frs), Some ns =>
+          if can_on (d_kind d) then Some (N d subs (dset frs t ns)) else None
+      | _, _ => None end
   end.
 
-Fixpoint evals (l : list bexpr) (st : store) : option (store * list node) :=
+Fixpoint evals (l : list bexpr) : option (list node) :=
   match l with
-  | [] => Some (st, [])
-  | x :: r => match eval x st with
-              | Some (st1, n) => match evals r st1 with
-                                 | Some (st2, ns) => Some (st2, n :: ns)
-                                 | None => None end
-              | None => None end
+  | [] => Some []
+  | x :: r => match eval x, evals r with Some n, Some ns => Some (n :: ns) | _, _ => None end
   end.
 End Eval.
 
@@ -436,27 +383,18 @@ Fixpoint thread {St X Y} (g : St -> X -> option (St * Y)) (s : St) (l : list X) 
               | None => None end
   end.
 
-Definition tstate := (store * list string)%type.
-
-(* to_ast(idx, used_names): returns the FieldNode and the object with its formatted_variables
-   rewritten (for a shared object the rewritten object is stored back).  [fuel] bounds the depth of
-   the object graph; a cyclic graph (RecursionError in Python) is None. *)
-Fixpoint to_ast (fuel : nat) (idx : nat) (s : tstate) (n : node) : option (tstate * (sel string * node)) :=
+(* to_ast(idx, used_names): returns the new used set, the FieldNode and the object with its
+   formatted_variables rewritten.  [fuel] bounds the depth of the object tree. *)
+Fixpoint to_ast (fuel : nat) (idx : nat) (used : list string) (n : node)
+  : option (list string * (sel string * node)) :=
   match fuel with
   | 0 => None
   | S f =>
       match n with
-      | Sh k =>
-          match nth_error (fst s) k with
-          | Some (N d subs frs) =>
-              match to_ast f idx s (N d subs frs) with
-              | Some ((st1, used1), (sl, n1)) => Some ((set_nth k n1 st1, used1), (sl, Sh k))
-              | None => None end
-          | _ => None end
       | N d subs frs =>
-          match collect idx (snd s) (d_vars d) with
+          match collect idx used (d_vars d) with
           | Some (used1, fmt) =>
-              match thread (to_ast f idx) (fst s, used1) subs with
+              match thread (to_ast f idx) used1 subs with
               | Some (s2, rs) =>
                   match thread (fun s' (fr : string * list node) =>
                                   match thread (to_ast f idx) s' (snd fr) with
@@ -484,17 +422,15 @@ Definition fmt_entry (fv : fvar) : string * var := (fv_key fv, fv_var fv).
 
 (* own variables, then .update(subfield.get_formatted_variables()) for every subfield and every
    fragment member — recursive since fix 18db886.  [fuel] as in to_ast. *)
-Fixpoint get_formatted_variables (fuel : nat) (st : store) (n : node) : list (string * var) :=
+Fixpoint get_formatted_variables (fuel : nat) (n : node) : list (string * var) :=
   match fuel with
   | 0 => []
   | S f =>
-      let go d (subs : list node) (frs : list (string * list node)) :=
-        dupdate (map fmt_entry (d_fmt d))
-                (flat_map (get_formatted_variables f st) subs ++
-                 flat_map (fun fr : string * list node => flat_map (get_formatted_variables f st) (snd fr)) frs)%list in
       match n with
-      | N d subs frs => go d subs frs
-      | Sh k => match nth_error st k with Some (N d subs frs) => go d subs frs | _ => [] end
+      | N d subs frs =>
+        dupdate (map fmt_entry (d_fmt d))
+                (flat_map (get_formatted_variables f) subs ++
+                 flat_map (fun fr : string * list node => flat_map (get_formatted_variables f) (snd fr)) frs)%list
       end
   end.
 
@@ -504,52 +440,39 @@ Record request := { r_vardefs : list (string * string);     (* $name: Type, in o
 
 (* _build_selection_set: used_names = set(); [field.to_ast(idx, used_names) for idx, field in
    enumerate(fields)] — ONE set for the whole operation since fix 565c1eb *)
-Fixpoint build_sels_from (fuel : nat) (idx : nat) (s : tstate) (ns : list node)
-  : option (tstate * list (sel string * node)) :=
+Fixpoint build_sels_from (fuel : nat) (idx : nat) (used : list string) (ns : list node)
+  : option (list string * list (sel string * node)) :=
   match ns with
-  | [] => Some (s, [])
+  | [] => Some (used, [])
   | n :: r =>
-      match to_ast fuel idx s n with
+      match to_ast fuel idx used n with
       | Some (s1, sn) =>
           match build_sels_from fuel (S idx) s1 r with
           | Some (s2, sns) => Some (s2, sn :: sns)
           | None => None end
       | None => None end
   end.
-Definition build_sels (fuel : nat) (idx : nat) (st : store) (ns : list node)
-  : option (store * list (sel string * node)) :=
-  match build_sels_from fuel idx (st, []) ns with
-  | Some ((st1, _), sns) => Some (st1, sns)
+Definition build_sels (fuel : nat) (ns : list node) : option (list (sel string * node)) :=
+  option_map snd (build_sels_from fuel 0 [] ns).
+
+Definition combine (fuel : nat) (ns : list node) : list (string * var) :=
+  fold_left (fun acc n => dupdate acc (get_formatted_variables fuel n)) ns [].
+
+Definition build_request (fuel : nat) (ns : list node) : option request :=
+  match build_sels fuel ns with
+  | Some sns =>
+      let comb := combine fuel (map (fun r => snd r) sns) in
+      Some {| r_vardefs := map (fun kv => (fst kv, v_type (snd kv))) comb;
+              r_sels := map (fun r => fst r) sns;
+              r_values := map (fun kv => (fst kv, v_value (snd kv))) comb |}
   | None => None end.
 
-Definition combine (fuel : nat) (st : store) (ns : list node) : list (string * var) :=
-  fold_left (fun acc n => dupdate acc (get_formatted_variables fuel st n)) ns [].
-
-Definition build_request (fuel : nat) (st : store) (ns : list node) : option (store * request) :=
-  match build_sels fuel 0 st ns with
-  | Some (st1, sns) =>
-      let comb := combine fuel st1 (map (fun r => snd r) sns) in
-      Some (st1, {| r_vardefs := map (fun kv => (fst kv, v_type (snd kv))) comb;
-                    r_sels := map (fun r => fst r) sns;
-                    r_values := map (fun kv => (fst kv, v_value (snd kv))) comb |})
+(* client.query(e1, ..., en): evaluate the arguments left to right, then build.  No state is read or
+   written: the request is a function of the expressions alone. *)
+Definition run_op (ct : list classmeta) (fuel : nat) (es : list bexpr) : option request :=
+  match evals ct es with
+  | Some ns => build_request fuel ns
   | None => None end.
-
-(* client.query(e1, ..., en): evaluate the arguments left to right, then build *)
-Definition run_op (ct : list classmeta) (fuel : nat) (st : store) (es : list bexpr)
-  : option (store * request) :=
-  match evals ct es st with
-  | Some (st1, ns) => build_request fuel st1 ns
-  | None => None end.
-
-(* a history of operations; a failing one (exception) leaves the store as it was at that point
-   — the model stops there (None) *)
-Fixpoint run_hist (ct : list classmeta) (fuel : nat) (st : store) (h : list (list bexpr)) : option store :=
-  match h with
-  | [] => Some st
-  | es :: r => match run_op ct fuel st es with
-               | Some (st1, _) => run_hist ct fuel st1 r
-               | None => None end
-  end.
 
 (* ------------------------------------------------------------------------------------------ *)
 (* Specification side: the request the property demands for an expression                      *)
@@ -581,8 +504,9 @@ Fixpoint ideal (e : bexpr) : option node :=
     end in
   match e with
   | Attr cls f =>
-      match resolve_attr ct cls f with
-      | Some (_, fm) => Some (N (fresh_data (fm_gql fm) (fm_okind fm) []) [] [])
+      match find_fm ct cls f with
+      | Some fm => if fm_method fm then None
+                   else Some (N (fresh_data (fm_gql fm) (fm_okind fm) []) [] [])
       | None => None end
   | Call cls f args =>
       match find_fm ct cls f with
@@ -601,7 +525,7 @@ Fixpoint ideal (e : bexpr) : option node :=
   | Alias e0 a =>
       match ideal e0 with
       | Some (N d subs frs) => Some (N (set_alias d a) subs frs)
-      | _ => None end
+      | None => None end
   | On e0 t es =>
       match ideal e0, ideals es with
       | Some (N d subs frs), Some ns =>
@@ -621,7 +545,6 @@ Fixpoint node_sel {A} (pj : var -> A) (fuel : nat) (n : node) : option (sel A) :
   | 0 => None
   | S f =>
       match n with
-      | Sh _ => None
       | N d subs frs =>
           match omap (node_sel pj f) subs,
                 omap (fun fr : string * list node =>
@@ -677,29 +600,8 @@ Definition ideal_sels (ct : list classmeta) (fuel : nat) (es : list bexpr) : opt
   | None => None end.
 
 (* ------------------------------------------------------------------------------------------ *)
-(* Guard = complement of the one open defect class (F15-shared-mutation)                       *)
+(* Precondition on the caller's values                                                          *)
 (* ------------------------------------------------------------------------------------------ *)
-(* the receiver of a mutation is a fresh object *)
-Fixpoint recv_fresh (e : bexpr) : bool :=
-  match e with
-  | Attr _ _ => false
-  | Call _ _ _ => true
-  | Fields e0 _ => recv_fresh e0
-  | Alias e0 _ => recv_fresh e0
-  | On e0 _ _ => recv_fresh e0
-  end.
-(* g_shared: no alias()/on() applied to a class-level shared object *)
-Fixpoint g_shared (e : bexpr) : bool :=
-  let all := fix go (l : list bexpr) : bool :=
-    match l with [] => true | x :: r => g_shared x && go r end in
-  match e with
-  | Attr _ _ => true
-  | Call _ _ _ => true
-  | Fields e0 es => g_shared e0 && all es
-  | Alias e0 _ => recv_fresh e0 && g_shared e0
-  | On e0 _ es => recv_fresh e0 && g_shared e0 && all es
-  end.
-
 (* g_conform: the arguments of every call respect non-null item positions of serialised scalars
    (a precondition on the caller's values, not a finding class) *)
 Definition arg_value (am : argmeta) (args : list (string * json)) : json :=
@@ -723,7 +625,6 @@ Fixpoint all_keys (fuel : nat) (n : node) : list string :=
   | 0 => []
   | S f =>
       match n with
-      | Sh _ => []
       | N d subs frs => (map fv_key (d_fmt d) ++ flat_map (all_keys f) subs ++
                         flat_map (fun fr : string * list node => flat_map (all_keys f) (snd fr)) frs)%list
       end
@@ -835,7 +736,7 @@ Definition s_ideal (l : list (sel (string * json))) : sexp :=
 Definition FUEL := 64.
 
 Definition guards_sexp (ct : list classmeta) (es : list bexpr) : sexp :=
-  L [sB (forallb g_shared es); sB (forallb (g_conform ct) es)].
+  L [sB (forallb (g_conform ct) es)].
 
 (* does the request resolve to the ideal? (the full property on this input, decided) *)
 Definition sel_eqb_sexp (a b : sexp) : bool :=
@@ -853,28 +754,34 @@ Definition sel_eqb_sexp (a b : sexp) : bool :=
          | _, _ => false end
      end) 200 a b.
 
-(* run a history from the import-time store; per operation: request, ideal, guards, cross-field
-   key distinctness, faithful? *)
-Fixpoint run_ops (ct : list classmeta) (st : store) (h : list (list bexpr)) : list sexp :=
+(* per operation of a history: request, ideal, guards, cross-field key distinctness, faithful?
+   (operations are independent in the model; the history only matters on the real code) *)
+Definition run_one (ct : list classmeta) (es : list bexpr) : sexp :=
+  let idl := match ideal_sels ct FUEL es with Some l => s_ideal l | None => sErr "ideal" end in
+  match evals ct es with
+  | None => L [sErr "eval"; idl; guards_sexp ct es; A "f"; A "f"]
+  | Some ns =>
+      match build_request FUEL ns with
+      | None => L [sErr "build"; idl; guards_sexp ct es; A "f"; A "f"]
+      | Some rq =>
+          let keys := match build_sels FUEL ns with
+                      | Some sns => flat_map (fun r => all_keys FUEL (snd r)) sns
+                      | None => [] end in
+          let res := match resolves (look_req rq) (r_sels rq) with
+                     | Some l => s_ideal l | None => sErr "unresolved" end in
+          L [s_request rq; idl; guards_sexp ct es; sB (nodupb keys);
+             sB (sel_eqb_sexp res idl && negb (sel_eqb_sexp idl (sErr "ideal")))]
+      end
+  end.
+(* a failing operation raises in Python: the harness stops the history there, so does the model *)
+Fixpoint run_ops (ct : list classmeta) (h : list (list bexpr)) : list sexp :=
   match h with
   | [] => []
   | es :: r =>
-      let idl := match ideal_sels ct FUEL es with Some l => s_ideal l | None => sErr "ideal" end in
-      match evals ct es st with
-      | None => L [sErr "eval"; idl; guards_sexp ct es; A "f"; A "f"] :: []
-      | Some (st1, ns) =>
-          match build_request FUEL st1 ns with
-          | None => L [sErr "build"; idl; guards_sexp ct es; A "f"; A "f"] :: []
-          | Some (st2, rq) =>
-              let keys := match build_sels FUEL 0 st1 ns with
-                          | Some (_, sns) => flat_map (fun r => all_keys FUEL (snd r)) sns
-                          | None => [] end in
-              let res := match resolves (look_req rq) (r_sels rq) with
-                         | Some l => s_ideal l | None => sErr "unresolved" end in
-              L [s_request rq; idl; guards_sexp ct es; sB (nodupb keys);
-                 sB (sel_eqb_sexp res idl && negb (sel_eqb_sexp idl (sErr "ideal")))]
-              :: run_ops ct st2 r
-          end
+      let o := run_one ct es in
+      match o with
+      | L (L [A "error"; _] :: _) => [o]
+      | _ => o :: run_ops ct r
       end
   end.
 
@@ -882,11 +789,11 @@ Definition run_builder (e : sexp) : sexp :=
   match e with
   | L [A "classes"; w] =>
       match d_world w with
-      | Some ct => L [A "ok"; sList s_class ct; sList (fun p => L [A (fst p); A (fm_py (snd p))]) (attrs ct)]
+      | Some ct => L [A "ok"; sList s_class ct]
       | None => sErr "builder: bad world" end
   | L [A "ops"; w; h] =>
       match d_world w, dList (dList (d_bexpr 32)) h with
-      | Some ct, Some hist => L (run_ops ct (store0 ct) hist)
+      | Some ct, Some hist => L (run_ops ct hist)
       | _, _ => sErr "builder: bad ops" end
   | L [A "suffixes"] =>
       L [A (class_suffix KObj); A (class_suffix KIface); A (class_suffix KUnion); A (class_suffix KLeaf)]
